@@ -218,6 +218,10 @@ def _numeric_circ_bad(specs, n, variants, light):
     if c.free_symbols:
         c = c.bind({s: _num_value(str(s)) for s in c.free_symbols})
     O = CS.np_oracle_unitary(c.operations, n, {})
+    if c.operations:
+        bad = _num_bad(np.asarray(CS.np_matrix(c.to_unitary(), {})), O)
+        if bad:
+            return f"to_unitary with numeric parameters: {bad}"
     for tag, v in _num_states(1 << n, normalised=True):
         st = v.copy()
         for op in c.operations:
@@ -316,6 +320,13 @@ def _work_circ(res, p):
     if c.n_qubits != n:
         res.ob(1)
         _cand(res, "width", f"Circuit(n_qubits={n}).n_qubits == {c.n_qubits}", p, {}, "width")
+        return
+    if p.get("numeric_only"):
+        # constants the front end has no exact form for (matrix exponentials): numeric run only, a ground instance
+        res.d["ground_instances"] += 1
+        res.d["instances"] -= 1
+        res.sample({"circuit": CS.spec_str(specs), "n": n, "free_symbols": 0})
+        _ground_clause(res, "numeric-run", _numeric_circ_bad(specs, n, p.get("variants", []), bool(p.get("light"))), f"[{CS.spec_str(specs)}] with every parameter a number, on numeric state vectors", p)
         return
     symbolic = bool(c.free_symbols)
     if symbolic:
@@ -530,10 +541,19 @@ def instances(tier, seed):
         (4, [("G2", (3, 1)), ("G1", (0,))], False),
         (2, [("G1", (1,))], False),
         (3, [("RY(th1)", (1,)), ("XX(th2)", (0, 2)), ("G1", (2,))], True),
+        # look-alikes inside ONE circuit: operations that share gate name, parameters and qubit tuple (or all but one of
+        # them) and are nevertheless different operations - wrappers report the wrapper's name, not the wrapped gate's
+        (2, [("X|c1", (0, 1)), ("Z|c1", (0, 1)), ("RY(th1)", (0,))], False),
+        (2, [("RX(th0)|c1", (0, 1)), ("RY(th0)|c1", (0, 1))], False),
+        (3, [("H|c1", (2, 0)), ("RZ(th0)", (1,)), ("T|c1", (2, 0)), ("T|c1", (0, 2))], False),
+        (1, [("X|exp", (0,)), ("H", (0,)), ("Z|exp", (0,))], False),
+        (2, [("X|exp|c1", (1, 0)), ("Y|exp|c1", (1, 0)), ("H", (1,))], False),
+        (2, [("RZ(th0)", (0,)), ("RZ(th1)", (0,)), ("RZ(th0)", (1,)), ("K2", (0, 1)), ("K2", (1, 0)), ("K2", (0, 1))], False),
+        (2, [("S|dagger", (0,)), ("T|dagger", (0,)), ("H", (0,)), ("S|pow(2)", (1,)), ("T|pow(2)", (1,))], False),
     ]
     for n, specs, twin in fixed:
         heavy = any(g in ("G2", "G3") for g, _ in specs)
-        items.append(("circ", {"n": n, "specs": [list(map(_l, s)) for s in specs], "variants": [] if heavy else VARIANTS, "twin": twin, "label": f"n={n} {CS.spec_str(specs)}"}))
+        items.append(("circ", {"n": n, "specs": [list(map(_l, s)) for s in specs], "variants": [] if heavy else VARIANTS, "twin": twin, "numeric_only": any("|exp" in g for g, _ in specs), "label": f"n={n} {CS.spec_str(specs)}"}))
     ncirc = 24 if tier == "quick" else 160
     for _ in range(ncirc):
         n = rng.choice([2, 3, 3, 3]) if tier == "quick" else rng.choice([2, 3, 3, 3, 4])
